@@ -641,24 +641,10 @@ def lu_solve(matrix_a, b):
     :return: x, the solution matrix
     :rtype: list
     """
-    # Variable initialization
-    dim = len(b[0])
-    num_x = len(b)
-    x = [[0.0 for _ in range(dim)] for _ in range(num_x)]
-
-    # LU decomposition
-    m_l, m_u = lu_decomposition(matrix_a)
-
-    # Solve the system of linear equations
-    for i in range(dim):
-        bt = [b1[i] for b1 in b]
-        y = forward_substitution(m_l, bt)
-        xt = backward_substitution(m_u, y)
-        for j in range(num_x):
-            x[j][i] = xt[j]
-
-    # Return the solution
-    return x
+    # Plain LU decomposition breaks down as soon as a leading principal minor of a non-singular matrix vanishes, and it does so
+    # silently: the zero pivot comes out as rounding noise and a meaningless solution is returned. Partial pivoting costs
+    # nothing for the diagonally dominant and collocation matrices this function is used with inside the library.
+    return lu_factor(matrix_a, b)
 
 
 def lu_factor(matrix_a, b):
